@@ -60,6 +60,11 @@ def impl(line):
     return impl_agg_op(line)
 
 
+def lean_line(line):
+    """` @q`: the gene is the result of `query_by_guids` on a larger gene (implementation side only)"""
+    return line[:-3] if line.endswith(" @q") else line
+
+
 def _n_children(t, i):
     return int(t[i])
 
@@ -106,6 +111,8 @@ def _exhaustive(run, kmax):
         flags = sum(1 for _, f in sel if f)
         run.count(f"gene:n{len(sel)}:flags{min(flags, 2)}")
         yield "gene " + enc_children(cs)
+        if len(cs) >= 2 and not any(c["primary"] for c in cs) and run.rng.random() < 0.25:
+            yield "gene " + enc_children(cs) + " @q"
     opts = [(k, f) for k in range(len(FEAT)) for f in (False, True)]
     for sel in _lists(opts, kmax):
         cs = [feat_child(k, "+", f) for k, f in sel]
@@ -240,6 +247,8 @@ def _random(run, n):
         cs = [_rand_tx(rng, genome, st0 if one_strand else rng.choice("+-"), i in flagged) for i in range(k)]
         run.count(f"rand:gene:n{k}")
         yield "gene " + enc_children(cs)
+        if len(cs) >= 2 and not any(c["primary"] for c in cs) and run.rng.random() < 0.25:
+            yield "gene " + enc_children(cs) + " @q"
         lo = rng.randint(0, genome - 1)
         hi = rng.randint(lo + 1, genome)
         cst = rng.choice("+-")
